@@ -99,6 +99,7 @@ prop(
     stages=[dict(name="c13", pkg="c13", test="TestC13", access=[], timeout_quick=240, timeout_thorough=2400),
             dict(name="c13composed", pkg="c13", test="TestC13Composed", access=[], timeout_quick=240, timeout_thorough=2400),
             dict(name="c13pairs", pkg="c13", test="TestC13Pairs", access=[], timeout_quick=240, timeout_thorough=2400),
+            dict(name="c13triggers", pkg="c13", test="TestC13Triggers", access=[], timeout_quick=240, timeout_thorough=2400),
             dict(name="c14config", pkg="c14", test="TestC14Config", access=[FILE_ACCESS], timeout_quick=300, timeout_thorough=3000)],
     ok_pred={"jitter": "jitter_ok"},
     check_ok_always=True,
